@@ -336,7 +336,11 @@ impl Generator {
 
         let build_dir = self.build_dir.clone();
         let result = GenerateResult::new(self, builds, treestate, known_builders, known_apps);
-        result.to_cache(&build_dir)?;
+        if load_stats.changed_while_loading {
+            println!("laze: build files changed while loading, not writing cache.");
+        } else {
+            result.to_cache(&build_dir)?;
+        }
         #[cfg(kaspar030_laze_verif)]
         crate::verif::fault("after_cache_write");
         Ok(result)
